@@ -175,7 +175,7 @@ func features() sqlgen.Features {
 
 func TestExtractionExact(t *testing.T) {
 	hx.Rule("extraction_exact", "G-SQL statements for which the generator recorded every table written in a table position, every column reference (incl. INSERT/SET/USING/ON CONFLICT columns) and every function call; the five extractors (and ExtractMetadata) must return exactly those sets, duplicate-free, with qualifiers in the qualified variants, and the same sets for a hostile re-layout; names in unclassified positions (CTE column lists, FOR UPDATE OF) may or may not appear; non-trivial = a name inside a nested query or in a non-FROM table position; distinct = kind + feature set")
-	extractCheck.Rapid(t, hx.N(5000, 300000), func(rt *rapid.T) ExtractCase {
+	extractCheck.Rapid(t, hx.N(100000, 1000000), func(rt *rapid.T) ExtractCase {
 		g := sqlgen.New(rt, features())
 		st := sqlgen.Statement(g)
 		c := ExtractCase{SQL: sqlgen.SQL(st.Toks), Tables: mk(st.Names.Tables), Cols: mk(st.Names.Columns), Funcs: mk(st.Names.Functions),
